@@ -29,7 +29,7 @@ func (h *Handler) ServeHTTP(w http.ResponseWriter, r *http.Request) {
 	method := HTTPMethod(strings.ToUpper(r.Method))
 
 	// Try to match the route
-	route, pathParams, err := h.router.Match(method, r.URL.Path)
+	route, pathParams, err := h.router.MatchEscaped(method, r.URL.EscapedPath())
 	if err != nil {
 		h.handleError(w, r, http.StatusNotFound, "route not found", err)
 		return
